@@ -142,6 +142,10 @@ type emu struct {
 	conns  int
 	wg     sync.WaitGroup
 	accDone chan struct{}
+	// scenario clirep: when snapAt frames have been processed, remember the memory differences and the reads served so far
+	snapAt    int
+	snapDiff  string
+	snapReads int
 }
 
 func newEmu() (*emu, error) {
@@ -231,6 +235,9 @@ func (e *emu) serve(c net.Conn) {
 			e.notes = append(e.notes, "bad-proto")
 		}
 		fc, payload := e.process(body[0], body[1:])
+		if e.snapAt > 0 && len(e.frames) == e.snapAt {
+			e.snapDiff, e.snapReads = e.diff(), len(e.reads)
+		}
 		e.mu.Unlock()
 		res := []byte{hdr[0], hdr[1], 0, 0, byte((len(payload) + 2) >> 8), byte(len(payload) + 2), hdr[6], fc}
 		res = append(res, payload...)
